@@ -232,7 +232,7 @@ def make_harness(job):
             mon.writes.clear()
             mon.active = True
             # sizes taken from the input are explored up to this limit only (C08 owns the rest)
-            ctx.eng.index_limit = 64
+            ctx.eng.index_limit = 64 if job['tier'] == 'quick' else 4096
             try:
                 try:
                     if op in ('encode-valid', 'encode-corrupt'):
